@@ -361,7 +361,10 @@ def run(chk, replay_case=None, replay=None):
     for case in pats:
         for sparse in (False, True):
             for cplx in (False, True):
-                res = replay_pattern(case, sparse, cplx)
+                try:
+                    res = replay_pattern(case, sparse, cplx)
+                except Exception as e:
+                    res = ("raise", "pattern %s raised %s: %s" % (case["pat"], type(e).__name__, str(e)[:150]))
                 chk.case(dict(case, sparse=sparse, complex=cplx), nontrivial=res is not None)
                 if res not in ("ok", None):
                     chk.violation("C06/pattern/" + res[0], res[1], dict(case, sparse=sparse, complex=cplx))
@@ -382,7 +385,10 @@ def run(chk, replay_case=None, replay=None):
     for k, case in enumerate(seqs):
         for storage in ("dense", "sparse", "fullsparse"):
             cplx = bool((k + len(storage)) % 2)
-            res = replay_pattern_seq(case, storage, cplx)
+            try:
+                res = replay_pattern_seq(case, storage, cplx)
+            except Exception as e:
+                res = ("raise", "update / solve sequence raised %s: %s (storage %s)" % (type(e).__name__, str(e)[:150], storage))
             key = dict(case, storage=storage, complex=cplx)
             chk.case(key, nontrivial=res is not None)
             if res not in ("ok", None):
